@@ -225,6 +225,32 @@ def handover_invariant(prog: Program, rep: Report) -> None:
         rep.check("R03.4", fi.qual, f"init, {case}: self.steps is the list the tables were built from", vtext(env.get("forcing.steps")) == "steps" and vtext(env.get("forcing.stepdiff")) == "diff(steps)", what_bad=f"steps={vtext(env.get('forcing.steps'))} stepdiff={vtext(env.get('forcing.stepdiff'))}", what_ok="same list", loc=fi.loc())
 
 
+def prestart_frame(prog: Program, rep: Report, rule: str = "R03.2") -> None:
+    """The frame the constructor primes from is the last one strictly before the start: a frame exactly on the
+    start (step 0) must be the *next* frame, which the first update hands over to - were it taken as the pre-start
+    frame, the first update would jump to the frame after it."""
+    fi = prog.lview(prog.role_func("forcing", "__init__"), keep=("_read_velocity", "_read_field", "_select_file"))
+    sel = []
+    for n in walk_no_nested(fi.node):
+        if isinstance(n, (ast.ListComp, ast.GeneratorExp, ast.SetComp)) and len(n.generators) == 1 and n.generators[0].ifs:
+            g = n.generators[0]
+            if isinstance(g.target, ast.Name) and unparse(g.iter) in ("steps", "self.steps") and unparse(n.elt) == g.target.id:
+                sel.append((n, g))
+    if not sel:
+        rep.add(rule, fi.qual, "pre-start frame: last frame strictly before the start", None, "the selection of the frames before the start was not found as a filter over `steps`", fi.loc())
+        return
+    for n, g in sel:
+        ok = False
+        for t in g.ifs:
+            if isinstance(t, ast.Compare) and len(t.ops) == 1 and unparse(t.left) == g.target.id and isinstance(t.comparators[0], (ast.Constant, ast.UnaryOp)):
+                try:
+                    c = ast.literal_eval(t.comparators[0])
+                except Exception:  # noqa: BLE001
+                    continue
+                ok = ok or (isinstance(t.ops[0], ast.Lt) and c == 0) or (isinstance(t.ops[0], ast.LtE) and c == -1)
+        rep.check(rule, fi.qual, f"pre-start frame: `{short(n, 60)}` keeps frames strictly before step 0", ok, what_bad="a frame exactly on the start would be taken as the pre-start frame: the first update then hands over to the frame after it and the velocity of the first interval is that of the next one", what_ok="step < 0", loc=fi.loc(n))
+
+
 def sorted_steps(prog: Program, rep: Report) -> None:
     """steps.sort() after forcing_steps() and before np.diff / index / subscripts."""
     fi = prog.role_func("forcing", "__init__")
@@ -560,6 +586,7 @@ def run(prog: Program, rep: Report, tier: str) -> None:
         rep.add("R03.8", o.func, f"[{o.rule}] {o.construct}", o.verdict == "ok" if o.verdict != "undecided" else None, o.what, o.loc)
     file_selection(prog, rep)
     handover_invariant(prog, rep)
+    prestart_frame(prog, rep)
     sorted_steps(prog, rep)
     fractional(prog, rep)
     step_tables(prog, rep)
